@@ -23,6 +23,32 @@ ASSUMPTIONS = ["unify law: pairs in which exactly one side carries a pseudo-elem
                "append law: b is one simple selector (class, id, attribute, pseudo-class or a name suffix)"]
 
 
+def static_checks(ctx):
+    """T3 source-shape guards behind `nest_fn_eq_rule_nest` / `append_eq_amp_suffix`: the function forms and
+    rule nesting must reach the very functions the model equates (whitespace-insensitive)."""
+    from tools.vlib import REPO
+    import os
+    problems = []
+
+    def src(rel):
+        try:
+            return re.sub(r"\s+", "", open(os.path.join(REPO, rel)).read())
+        except OSError:
+            return ""
+    fn = src("rsass/src/sass/functions/selector.rs")
+    if "v.fold(first,|b,e|b.nest(e,&b))" not in fn:
+        problems.append("sass/functions/selector.rs: selector.nest no longer folds `b.nest(e, &b)`")
+    if "s.try_fold(base,|base,s|base.append(&s))" not in fn:
+        problems.append("sass/functions/selector.rs: selector.append no longer folds `base.append(&s)`")
+    ctxs = src("rsass/src/css/selectors/context.rs")
+    if "self.s.nest(selectors,self.get_backref())" not in ctxs:
+        problems.append("css/selectors/context.rs: SelectorCtx::nest no longer calls `self.s.nest(selectors, self.get_backref())`")
+    sel = src("rsass/src/css/selectors/selector.rs")
+    if "compound:s.compound.append(&self.compound).unwrap()" not in sel:
+        problems.append("css/selectors/selector.rs: resolve_ref no longer appends `&`'s compound with CompoundSelector::append")
+    return problems
+
+
 def norm(t):
     t = t.strip()
     if t.startswith("(") and t.endswith(",)"):
